@@ -703,6 +703,11 @@ class Instruction:
         self._var_map = {}
         self.block = None
         self.uses = OrderedSet()
+        # A value can sit in several operand slots of one instruction
+        # (x * x, call f(x, x), phi with the same value on two edges).
+        # Count the slots, so that the use is only forgotten when the
+        # last slot lets go of the value.
+        self._use_count = {}
 
     @property
     def function(self):
@@ -713,17 +718,32 @@ class Instruction:
         """Add v to the list of values used by this instruction"""
         if not isinstance(value, Value):
             raise TypeError(f"Expected Value, but got {value}")
-        self.uses.add(value)
-        value.add_user(self)
+        count = self._use_count.get(value, 0)
+        self._use_count[value] = count + 1
+        if count == 0:
+            self.uses.add(value)
+            value.add_user(self)
 
     def del_use(self, v):
+        """Remove one usage of v (one operand slot)"""
         assert isinstance(v, Value)
-        self.uses.remove(v)
-        v.del_user(self)
+        count = self._use_count[v] - 1
+        if count:
+            self._use_count[v] = count
+        else:
+            del self._use_count[v]
+            self.uses.remove(v)
+            v.del_user(self)
+
+    def del_all_uses(self):
+        """Forget all used values, in all operand slots"""
+        for use in list(self.uses):
+            del self._use_count[use]
+            self.uses.remove(use)
+            use.del_user(self)
 
     def delete(self):
-        for use in list(self.uses):
-            self.del_use(use)
+        self.del_all_uses()
         if self.uses:
             uses = ", ".join(map(str, self.uses))
             raise ValueError(
@@ -743,8 +763,7 @@ class Instruction:
                 self.add_use(new)
 
     def remove_from_block(self):
-        for use in list(self.uses):
-            self.del_use(use)
+        self.del_all_uses()
         self.block.remove_instruction(self)
 
     @property
@@ -882,11 +901,11 @@ class FunctionCall(LocalValue):
 
     def replace_use(self, old, new):
         super().replace_use(old, new)
-        if old in self.arguments:
-            idx = self.arguments.index(old)
-            self.del_use(old)
-            self.arguments[idx] = new
-            self.add_use(new)
+        for idx, argument in enumerate(self.arguments):
+            if argument is old:
+                self.del_use(old)
+                self.arguments[idx] = new
+                self.add_use(new)
 
     def __str__(self):
         args = ", ".join(arg.name for arg in self.arguments)
@@ -913,11 +932,11 @@ class ProcedureCall(Instruction):
 
     def replace_use(self, old, new):
         super().replace_use(old, new)
-        if old in self.arguments:
-            idx = self.arguments.index(old)
-            self.del_use(old)
-            self.arguments[idx] = new
-            self.add_use(new)
+        for idx, argument in enumerate(self.arguments):
+            if argument is old:
+                self.del_use(old)
+                self.arguments[idx] = new
+                self.add_use(new)
 
     def __str__(self):
         args = ", ".join(arg.name for arg in self.arguments)
@@ -1205,11 +1224,12 @@ class InlineAsm(Instruction):
 
     def replace_use(self, old, new):
         super().replace_use(old, new)
-        if old in self.input_values:
-            idx = self.input_values.index(old)
-            self.del_use(old)
-            self.input_values[idx] = new
-            self.add_use(new)
+        for values in (self.input_values, self.output_values):
+            for idx, value in enumerate(values):
+                if value is old:
+                    self.del_use(old)
+                    values[idx] = new
+                    self.add_use(new)
 
     def __str__(self):
         return f"asm ({self.template})"
